@@ -98,6 +98,16 @@ class History:
                 s.append((o[0], o['y'], o[2]))
             else:
                 s.append((o['pitch'], o[1], o['r']))
+        else:
+            # what a matrix lets one observe besides its entries: the values its methods derive from it (results that a
+            # caller received earlier and edited in place must not come back)
+            ang = o.to_angle()
+            s.append((ang.pitch, ang.yaw, ang.roll))
+            for meth in ('forward', 'left', 'up'):
+                vec = getattr(o, meth)()
+                s.append((vec.x, vec.y, vec.z))
+            tr = o.transpose()
+            s.append(tuple(tr[i, j] for i in range(3) for j in range(3)))
         return s
 
     def fail(self, what: str, key: str, witness: Any = None) -> None:
@@ -482,12 +492,20 @@ class History:
         self.log.append(f'Angle.transform() -> {self.raw(a)}')
 
     def op_to_angle(self):
-        sm = self.sm
+        sm, rng = self.sm, self.rng
         m = self.pick(sm.MatrixBase)
         a = m.to_angle()
         self.flags['mat2ang'] = True
         self.log.append(f'{type(m).__name__}.to_angle() -> {self.raw(a)}')
         self.add(a)
+        if rng.random() < 0.6:
+            # the caller owns what it was handed: editing it (and the direction vectors) is nothing the matrix may notice
+            self.mutate(a)
+            for meth in ('forward', 'left', 'up'):
+                vec = getattr(m, meth)()
+                if isinstance(vec, sm.Vec):
+                    self.mutate(vec)
+            self.log[-1] += ', result edited in place'
 
     def op_vec_to_angle(self):
         sm, rng = self.sm, self.rng
